@@ -1,6 +1,7 @@
 use crate::api::{
-    failure_to_ise, server_error_to_actix, ServerState, HISTORY_SEGMENT_CONTENT_TYPE,
-    PARENT_VERSION_ID_HEADER, SNAPSHOT_REQUEST_HEADER, VERSION_ID_HEADER,
+    check_body_complete, failure_to_ise, server_error_to_actix, ServerState,
+    HISTORY_SEGMENT_CONTENT_TYPE, PARENT_VERSION_ID_HEADER, SNAPSHOT_REQUEST_HEADER,
+    VERSION_ID_HEADER,
 };
 use actix_web::{error, post, web, HttpMessage, HttpRequest, HttpResponse, Result};
 use futures::StreamExt;
@@ -56,6 +57,7 @@ pub(crate) async fn service(
     if body.is_empty() {
         return Err(error::ErrorBadRequest("Empty body"));
     }
+    check_body_complete(&req, body.len())?;
 
     loop {
         return match server_state
